@@ -23,3 +23,7 @@ func verifJetCfg(cfg int) (int, int, int, int) {
 	panic("bad cfg")
 }
 
+
+func verifPos(x, y float64)      { VerifAssume(x > 0) }
+func verifAny(x, y float64)      {}
+func verifSqr(x float64) float64 { return x * x }
